@@ -86,7 +86,9 @@ class ProgramGen(object):
                  'try', 'deco', 'deco2', 'mlstr', 'mlstr_prompt', 'semi', 'comment', 'with', 'while', 'class',
                  'await', 'asyncdef', 'asyncwith', 'bracket_comment', 'backslash', 'strhash', 'call', 'use',
                  'import', 'augassign', 'lambda', 'dictlit', 'nestedfor', 'callml', 'emit_comment', 'tryfinally',
-                 'globaldef']
+                 'globaldef', 'noeol', 'fstring', 'walrus', 'match', 'delvar', 'asyncfor', 'asynccomp', 'decoasync',
+                 'docstr_in_def', 'deepnest', 'unicode', 'starunpack', 'yieldgen', 'condexpr', 'withas', 'stdoutwrite',
+                 'elifchain', 'commentbody', 'parenwith', 'tripledq']
 
     def __init__(self, rng, kinds=None, allow_async=True):
         self.rng = rng
@@ -211,6 +213,65 @@ class ProgramGen(object):
                 return S(['v%d = %d' % (i, i)], 'assign', i)
             v = r.choice(cands)
             return S(['%s = [%s]; quiet(%d)' % (v, v, i)], k, i, is_expr=True)
+        if k == 'noeol':
+            # output without a trailing newline: the next output continues the same line
+            return S(['print("n%d", end=""); T.append(%d)' % (i, i)], k, i, is_expr=True)
+        if k == 'stdoutwrite':
+            return S(['import sys as _s%d' % i, 'quiet(_s%d.stdout.write("w%d\\n"))' % (i, i)], k, i, is_expr=True,
+                     ps1_lines=(1,))
+        if k == 'fstring':
+            self.defined_vars.append('s%d' % i)
+            return S(['s%d = f"{%d!r:>4} # {{brace}} {\'q\'}"; quiet(%d)' % (i, i, i)], k, i, is_expr=True)
+        if k == 'walrus':
+            self.defined_vars.append('v%d' % i)
+            return S(['if (v%d := %d) > 0:' % (i, i), '    emit(%d)' % i], k, i)
+        if k == 'match':
+            return S(['match %d:' % i, '    case 0:', '        emit(-%d)' % i, '    case _:', '        emit(%d)' % i], k, i)
+        if k == 'delvar':
+            return S(['d%d = %d' % (i, i), 'del d%d' % i, 'quiet(%d)' % i], k, i, is_expr=True, ps1_lines=(1, 2))
+        if k == 'asyncfor':
+            return S(['async def ag%d():' % i, '    for j in range(2):', '        yield j', 'async for j%d in ag%d():' % (i, i),
+                      '    await aemit(%d)' % i], k, i, ps1_lines=(3,))
+        if k == 'asynccomp':
+            self.defined_vars.append('v%d' % i)
+            return S(['async def ah%d():' % i, '    yield %d' % i, 'v%d = [x async for x in ah%d()]; quiet(%d)' % (i, i, i)],
+                     k, i, is_expr=True, ps1_lines=(2,))
+        if k == 'decoasync':
+            self.defined_afuncs.append('af%d' % i)
+            return S(['@deco(%d)' % i, 'async def af%d():' % i, '    await aemit(%d)' % i], k, i)
+        if k == 'docstr_in_def':
+            self.defined_funcs.append('f%d' % i)
+            return S(['def f%d(a):' % i, "    '''doc with a prompt", '    >>> not_run(%d)' % i, '    and dots ...', "    '''",
+                      '    quiet(%d)' % i, '    return a'], k, i, str_body=(2, 3, 4))
+        if k == 'deepnest':
+            return S(['for a%d in range(2):' % i, '    if a%d:' % i, '        # comment in body %d' % i,
+                      '        for b%d in range(1):' % i, '', '            emit(%d)' % i, '    else:', '        quiet(%d)' % i],
+                     k, i)
+        if k == 'unicode':
+            self.defined_vars.append('s%d' % i)
+            return S(['s%d = "\u00e9\u4e2d %d"; print("\u00fc%d"); T.append(%d)' % (i, i, i, i)], k, i, is_expr=True)
+        if k == 'starunpack':
+            self.defined_vars.append('v%d' % i)
+            return S(['v%d, *w%d = [%d, quiet(%d), 3]' % (i, i, i, i)], k, i)
+        if k == 'yieldgen':
+            self.defined_vars.append('v%d' % i)
+            return S(['def gen%d():' % i, '    yield %d' % i, '    emit(%d)' % i, 'v%d = list(gen%d())' % (i, i)], k, i,
+                     ps1_lines=(3,))
+        if k == 'condexpr':
+            return S(['emit(%d) if %d else emit(-%d)' % (i, i, i)], k, i, is_expr=True)
+        if k == 'withas':
+            self.defined_vars.append('v%d' % i)
+            return S(['with ctx(%d) as c%d, ctx(-%d):' % (i, i, i), '    v%d = c%d' % (i, i)], k, i)
+        if k == 'parenwith':
+            return S(['with (', '    ctx(%d),' % i, '    ctx(-%d),' % i, '):', '    emit(%d)' % i], k, i)
+        if k == 'elifchain':
+            return S(['if %d < 0:' % i, '    emit(-%d)' % i, 'elif %d == 0:' % i, '    emit(0)', 'else:', '    emit(%d)' % i], k, i)
+        if k == 'commentbody':
+            return S(['def cb%d():' % i, '    # only a comment and a docstring-less body', '    return quiet(%d)' % i,
+                      'cb%d()' % i], k, i, is_expr=True, ps1_lines=(3,))
+        if k == 'tripledq':
+            self.defined_vars.append('s%d' % i)
+            return S(["s%d = '''it's \"q\" %d" % (i, i), "'''; quiet(%d)" % i], k, i, str_body=(1,), is_expr=True)
         if k == 'import':
             first = r.choice(['import os.path as m%d' % i, 'from os import path as m%d' % i])
             return S([first, 'quiet(%d)' % i], k, i, is_expr=True, ps1_lines=(1,))
@@ -317,6 +378,8 @@ class Layout(object):
         """prompt-prefixed lines of one statement, list of (text, label)"""
         rng = self.rng
         style = style or rng.choice(self.styles)
+        if st.kind == 'tripledq':
+            style = 'ps2'
         out = []
         for li, line in enumerate(st.lines):
             if li == 0 or li in st.ps1_lines:
